@@ -116,7 +116,7 @@ def check_hostile_outcome(mon: Monitor, res, ctx: Ctx) -> None:
     kind = exp["kind"]
     err = res["error"]
     want = {"spoof": ("ValueError",), "resubmit": ("ValueError",), "dup": ("ValueError",),
-            "ghost_market": ("KeyError",), "ghost_cancel": ("ValueError",)}[kind]
+            "ghost_market": ("KeyError",), "ghost_cancel": ("ValueError",), "cancel_foreign": ("ValueError",)}[kind]
     if err is None:
         mon.viol("C04", "hostile_op_accepted", {"kind": kind})
         return
@@ -128,8 +128,9 @@ def check_hostile_outcome(mon: Monitor, res, ctx: Ctx) -> None:
     if kind in ("spoof", "ghost_market", "ghost_cancel", "resubmit"):
         # nothing may have been accepted after the hostile object was returned ... for a spoofed
         # batch nothing at all; for the others only what preceded it in processing order
-        if kind == "spoof" and (mon.stats.get("orders", 0) != exp["orders"] or mon.stats.get("cancels", 0) != exp["cancels"]):
-            mon.viol("C04", "spoofed_batch_partly_accepted", {"orders_after": mon.stats.get("orders", 0) - exp["orders"]})
+        if kind in ("spoof", "cancel_foreign") and (mon.stats.get("orders", 0) != exp["orders"] or mon.stats.get("cancels", 0) != exp["cancels"]):
+            mon.viol("C04", "spoofed_batch_partly_accepted", {"kind": kind, "orders_after": mon.stats.get("orders", 0) - exp["orders"],
+                                                              "cancels_after": mon.stats.get("cancels", 0) - exp["cancels"]})
 
 
 # ====================================================================== driver A
